@@ -137,7 +137,7 @@ def run(case):
             mon = PortMonitor(env, port, Script(w, 'mon', case['monitor'].get('dist', [1.0]), 1.0, finite=True),
                               pkt_in_service_included=case['monitor'].get('included', False))
             env.process(mon.run())
-        w.run(max_steps=20000)
+        w.run(max_steps=20000 * (40 if case.get('long_life') else 1))
     finally:
         red_mod.random = saved
     viol, stats, nontrivial = check(w, case, port, mon)
@@ -386,3 +386,16 @@ def _maybe_waiting(b, g, accepted):
     if b['idle_start']:
         return True            # dequeued by the port process in a later step of this instant
     return _started_after(b, g, accepted)
+
+
+_gen_short = gen
+
+
+def gen(rng, tier):
+    case = _gen_short(rng, tier)
+    if rng.random() < 1 / 80 and True and len(case.get('workload', [])) >= 3:
+        # a long life: the same pattern of bursts, gaps and coincidences over and over, thousands of packets in all
+        from ..net import stretch_workload
+        case['workload'] = stretch_workload(case['workload'], 2600)
+        case['long_life'] = True
+    return case
